@@ -436,10 +436,10 @@ class FiniteDifferenceImplicitThermalSolver:
         source=None,
         T0=None,
         fix_edge=None,
-        rtol=1e-6,
-        atol=1e-2,
-        miter=100,
-        substep=1,
+        rtol=None,
+        atol=None,
+        miter=None,
+        substep=None,
         resetters=None,
     ):
         """
@@ -459,10 +459,10 @@ class FiniteDifferenceImplicitThermalSolver:
           T0          if present override the tube IC with a function of
                       the coordinates
           fix_edge    an exact solution to fix edge BCs for testing
-          rtol        solver relative tolerance
-          atol        solver absolute tolerance
-          miter       maximum number of nonlinear iterations
-          substep     subdivide thermal steps into smaller increments
+          rtol        solver relative tolerance (default: the solver's)
+          atol        solver absolute tolerance (default: the solver's)
+          miter       maximum number of nonlinear iterations (default: the solver's)
+          substep     subdivide thermal steps into smaller increments (default: the solver's)
           resetters   list of reset objects to apply
         """
         if resetters is None:
@@ -475,10 +475,10 @@ class FiniteDifferenceImplicitThermalSolver:
             source,
             T0,
             fix_edge,
-            self.rtol,
-            self.atol,
-            self.miter,
-            self.substep,
+            self.rtol if rtol is None else rtol,
+            self.atol if atol is None else atol,
+            self.miter if miter is None else miter,
+            self.substep if substep is None else substep,
             self.verbose,
             self.steady,
         ).solve(resetters)
